@@ -27,8 +27,8 @@ CLAIM = ("For every grammar of the families and every input up to 3 tokens the r
 NOTE = "Trusted: RefPEG's whitespace/comment skipping (documented: modifier state is dynamic and starts immediately after the previous match)."
 
 
-def insertions(comment, cr=False):
-    ins = [" ", "\n", "\t", "  "] + (["\r", "\r\n"] if cr else [])
+def insertions(comment, cr=False, extra=""):
+    ins = [" ", "\n", "\t", "  "] + (["\r", "\r\n"] if cr else []) + [c for c in extra if c not in " \n\t\r"]
     if comment == "line":
         ins += ["#z\n", " #z\n "]
     elif comment == "block":
@@ -69,7 +69,7 @@ def work(arg):
     try:
         for label, g, cfgs in items:
             ck = comment_kind(g)
-            ins = insertions(ck, cr=any("\r" in r[1].get("ws", "") for r in g))
+            ins = insertions(ck, cr=any("\r" in r[1].get("ws", "") for r in g), extra="".join(r[1].get("ws", "") for r in g))
             alpha = gramgen.alphabet(g, foreign=False)
             for cfg in cfgs:
                 interp = refpeg.Interp(g, **{k: v for k, v in cfg.items() if k in diff.REF_KEYS})
